@@ -242,6 +242,11 @@ fn operand(ctx: &mut Ctx, emin: i64, emax: i64) -> Dd {
     if let Some(c) = maybe_constant(ctx, 40, false) {
         return c;
     }
+    if ctx.chance(1, 12) {
+        if let Some(d) = derived_operand(ctx, emin, emax - 1) {
+            return d;
+        }
+    }
     dd_closed(ctx, emin, emax, true)
 }
 fn operand_pair(ctx: &mut Ctx, emin: i64, emax: i64) -> (Dd, Dd) {
